@@ -5,6 +5,7 @@
 //!   tausim digest <PROP> <kind> <from> <to> [--seed N] [--thorough]
 //!   tausim selfcheck [--seeds N]
 
+mod allocseam;
 mod docs;
 mod exec;
 mod gen;
@@ -24,6 +25,9 @@ use std::time::Instant;
 use exec::{Scenario, Stats, Violation};
 
 pub const DEFAULT_SEED: u64 = 20260928;
+#[global_allocator]
+static GLOBAL: allocseam::SimAlloc = allocseam::SimAlloc;
+
 const STACK: usize = 256 << 20;
 const ISOLATED_STACK: usize = 16 << 20;
 
